@@ -116,6 +116,18 @@ def choice_diff(req):
         distinct.add((repr(args), repr(kw)))
         if not (res["outcome"] == "raise" and res["exc"] == exc) and len(fails) < limit:
             fails.append({"args": enc(args), "kwargs": enc(kw), "expected": {"outcome": "raise", "exc": exc}, "observed": res})
+    # integer weights beyond 2^53: running totals are exact ints, only the TOTAL becomes a float
+    for k in (2 ** 23, 2 ** 23 + 1, 2 ** 31, 2 ** 32 - 5, 3 * 2 ** 29 + 7):
+        ws = [k * 2 ** 30, 1, 2 ** 62 - k * 2 ** 30 - 1]
+        pop = ["g0", "g1", "g2"]
+        for kk in (k - 1, k, k + 1):
+            u = Fraction(kk, TWO32)
+            exp = scheme.spec_choice(3, list(ws), None, u)
+            for form, res in (("weights(big ints)", _with_pos(u, b.deterministic_choice, "unit", pop, list(ws))),
+                              ("cum_weights(big ints)", _with_pos(u, b.deterministic_choice, "unit", pop, cum_weights=list(itertools.accumulate(ws))))):
+                evals += 1
+                if not (res["outcome"] == "return" and exp["outcome"] == "return" and res["value"] == pop[exp["index"]]) and len(fails) < limit:
+                    fails.append({"weights": [str(w) for w in ws], "form": form, "u": "%d/2^32" % kk, "expected": exp, "observed": res})
     # running totals of mixed int / float type (a total that happens to be an int after fractional partial sums)
     for cumm in ([0.25, 0.5, 0.75, 1], [0.5, 1], [1.5, 3], [0.5, 1.5, 2], [1, 1.5, 2.5], [2, 2.5]):
         n = len(cumm)
@@ -441,7 +453,7 @@ def trivia_diff(req):
     from pyab_experiment.utils.wraper_functions import parse_source
     rnd = random.Random(req.get("seed", 0))
     pool = req.get("pool", [" ", "\n", "\t \n", "/* x */", "/* a */ /* b */", "// c\n", "/* ' \" // * if def */", "/*\n*\n*/", "/**/", "/* * / */", "//\n", "/* a */\t/* b */ // c\n",
-                            "// a\x0c, \"Z\" weighted 9\n", "// a\u2028 b \u2029 c \x85 d \x1c e\n", "/* a\x0c b \u2028 */", "\r\n", "\x0b", "// \r x\n", "/*/ x */", "/*// x */", "/*/*/", "/*/ , \"Z\" weighted 9 /* */"])
+                            "// a\x0c, \"Z\" weighted 9\n", "// a\u2028 b \u2029 c \x85 d \x1c e\n", "/* a\x0c b \u2028 */", "\r\n", "\x0b", "// \r x\n", "// path C:\\exp\\\n", "// \\\n", "/* 2*3 */", "/* a*b **/", "/** x **/", "/* \x00 */", "/*/ x */", "/*// x */", "/*/*/", "/*/ , \"Z\" weighted 9 /* */"])
     fails, evals, limit = [], 0, req.get("limit", 3)
     sink = io.StringIO()
 
